@@ -469,6 +469,16 @@ impl<A: All2All> Votor<A> {
         self.handle_timeout_event(event).await;
     }
 
+    /// Waits for the next timeout scheduled by `set_timeouts`.
+    ///
+    /// Returns the slot and whether it is the crashed-leader timeout.
+    pub async fn verif_next_timeout(&mut self) -> Option<(Slot, bool)> {
+        match self.timeout_receiver.recv().await? {
+            VotorTimeout::Timeout(slot) => Some((slot, false)),
+            VotorTimeout::TimeoutCrashedLeader(slot) => Some((slot, true)),
+        }
+    }
+
     /// Returns and clears the windows for which timeouts were scheduled since the last call.
     pub fn verif_take_timeouts_set(&self) -> Vec<Slot> {
         std::mem::take(&mut *self.verif_timeouts_set.lock().expect("lock is never poisoned"))
